@@ -696,3 +696,63 @@ fire("C15", "second-order shortcut divides by g' at the already transformed init
 silent("C15", "second-order shortcut for the initial slope (division by g' at the original initial point)",
        ("sub", "ode.py", "        x_span = transform.transform(np.array(list(x_span)))\n        # Solve for derivatives in original domain by solving A(original derivs) = new derivs\n        y_derivs = solve(deriv, np.array(y0[1:]))\n",
         "        slope = np.atleast_1d(y0[1] / transform.deriv(x_span[0])) if order == 2 else None\n        x_span = transform.transform(np.array(list(x_span)))\n        y_derivs = solve(deriv, np.array(y0[1:])) if slope is None else slope\n"))
+
+# ------------------------------------------------------------------------------------------ C09
+fire("C09", "angular integration removes r w instead of r^2 w", "D5.angular-integration/atomgrid.AtomGrid.integrate_angular_coordinates",
+     ("sub", "atomgrid.py", "            radial_coefficients /= self.rgrid.points**2 * self.rgrid.weights\n", "            radial_coefficients /= self.rgrid.points * self.rgrid.weights\n"))
+fire("C09", "shell segment one point short", "D5.angular-integration/atomgrid.AtomGrid.integrate_angular_coordinates",
+     ("sub", "atomgrid.py", "                np.sum(prod_value[..., self.indices[i] : self.indices[i + 1]], axis=-1)\n", "                np.sum(prod_value[..., self.indices[i] : self.indices[i + 1] - 1], axis=-1)\n"))
+fire("C09", "spherical average divided by 2 pi", "D6.spherical-average/atomgrid.AtomGrid.spherical_average",
+     ("sub", "atomgrid.py", "        f_radial /= 4.0 * np.pi\n", "        f_radial /= 2.0 * np.pi\n"))
+fire("C09", "truncation of lower-degree shells one degree too low", "D4.radial-components/atomgrid.AtomGrid.radial_component_splines/projection",
+     ("sub", "atomgrid.py", "                num_nonzero_sph = (self.degrees[i] // 2 + 1) ** 2\n", "                num_nonzero_sph = (self.degrees[i] // 2) ** 2\n"))
+fire("C09", "truncation of lower-degree shells removed", "D4.radial-components/atomgrid.AtomGrid.radial_component_splines/truncation",
+     ("sub", "atomgrid.py", "                radial_components[num_nonzero_sph:, i] = 0.0\n", "                pass\n"))
+fire("C09", "basis generated up to l_max instead of l_max // 2", "D4.radial-components/atomgrid.AtomGrid.radial_component_splines/basis-degree",
+     ("sub", "atomgrid.py", "            self._basis = generate_real_spherical_harmonics(self.l_max // 2, theta, phi)\n", "            self._basis = generate_real_spherical_harmonics(self.l_max, theta, phi)\n"))
+fire("C09", "interpolant ignores the requested radial derivative order", "D1.interpolant-is-sum/atomgrid.AtomGrid.interpolate/radial derivative",
+     ("sub", "atomgrid.py", "            r_values = np.array([spline(r_pts, deriv) for spline in splines])\n", "            r_values = np.array([spline(r_pts) for spline in splines])\n"))
+fire("C09", "theta and phi derivative rows of the harmonics exchanged", "D2.spherical-derivatives/atomgrid.AtomGrid.interpolate",
+     ("sub", "atomgrid.py", "                deriv_theta = np.einsum(\"ij,ij->j\", radial_components, deriv_sph_harm[0, :, :])\n                deriv_phi = np.einsum(\"ij,ij->j\", radial_components, deriv_sph_harm[1, :, :])\n",
+      "                deriv_theta = np.einsum(\"ij,ij->j\", radial_components, deriv_sph_harm[1, :, :])\n                deriv_phi = np.einsum(\"ij,ij->j\", radial_components, deriv_sph_harm[0, :, :])\n"))
+fire("C09", "angular derivatives use the differentiated splines", "D2.spherical-derivatives/atomgrid.AtomGrid.interpolate",
+     ("sub", "atomgrid.py", "                deriv_theta = np.einsum(\"ij,ij->j\", radial_components, deriv_sph_harm[0, :, :])\n", "                deriv_theta = np.einsum(\"ij,ij->j\", r_values, deriv_sph_harm[0, :, :])\n"))
+fire("C09", "Jacobian: sign of dphi/dz", "D3.cartesian-chain-rule/utils.convert_derivative_from_spherical_to_cartesian/z",
+     ("sub", "utils.py", "                [np.cos(phi), 0.0, -np.sin(phi) / r],\n", "                [np.cos(phi), 0.0, np.sin(phi) / r],\n"))
+fire("C09", "Jacobian: dtheta/dx without the polar sine", "D3.cartesian-chain-rule/utils.convert_derivative_from_spherical_to_cartesian/x",
+     ("sub", "utils.py", "                    -np.sin(theta) / (r * np.sin(phi)),\n", "                    -np.sin(theta) / r,\n"))
+fire("C09", "chain rule called with theta and phi exchanged", "D3.cartesian-chain-rule/utils.convert_derivative_from_spherical_to_cartesian",
+     ("sub", "atomgrid.py", "                        radial_i,\n                        theta_i,\n                        phi_i,\n", "                        radial_i,\n                        phi_i,\n                        theta_i,\n"))
+fire("C09", "molecular interpolation forgets the atom-in-molecule weights", "D7.molecular-assembly/molgrid.MolGrid.interpolate/segment",
+     ("sub", "molgrid.py", "            interpolate_funcs.append(atom_grid.interpolate(func_vals_atom[start_index:final_index]))\n", "            interpolate_funcs.append(atom_grid.interpolate(func_vals[start_index:final_index]))\n"))
+fire("C09", "molecular interpolation forwards the options in the wrong order", "D7.molecular-assembly/molgrid.MolGrid.interpolate/options",
+     ("sub", "molgrid.py", "                output += interpolate(points, deriv, deriv_spherical, only_radial_derivs)\n", "                output += interpolate(points, deriv, only_radial_derivs, deriv_spherical)\n"))
+silent("C09", "contraction with the harmonics written as an elementwise product and a sum",
+       ("sub", "atomgrid.py", "            return np.einsum(\"ij, ij -> j\", r_values, r_sph_harm)\n\n        return interpolate_low", "            return np.sum(r_values * r_sph_harm, axis=0)\n\n        return interpolate_low"))
+silent("C09", "Jacobian entry with the factors in another order",
+       ("sub", "utils.py", "                    np.cos(theta) * np.cos(phi) / r,\n", "                    np.cos(phi) * np.cos(theta) / r,\n"))
+silent("C09", "shell sums collected in an explicit loop",
+       ("sub", "atomgrid.py", "        radial_coefficients = np.array(\n            [\n                np.sum(prod_value[..., self.indices[i] : self.indices[i + 1]], axis=-1)\n                for i in range(self.n_shells)\n            ]\n        )\n",
+        "        shell_sums = []\n        for i in range(self.n_shells):\n            start, stop = self.indices[i], self.indices[i + 1]\n            shell_sums.append(np.sum(prod_value[..., start:stop], axis=-1))\n        radial_coefficients = np.array(shell_sums)\n"))
+
+# ------------------------------------------------------------------------------------------ C08
+fire("C08", "solid harmonics normalised with 2l - 1", "S1.solid-harmonics/utils.solid_harmonics",
+     ("sub", "utils.py", "np.sqrt(4.0 * np.pi / (2 * degrees[:, None] + 1))", "np.sqrt(4.0 * np.pi / (2 * degrees[:, None] - 1))"))
+fire("C08", "solid harmonics with r^(l+1)", "S1.solid-harmonics/utils.solid_harmonics",
+     ("sub", "utils.py", "spherical_harm * r ** degrees[:, None] * np.sqrt", "spherical_harm * r ** (degrees[:, None] + 1) * np.sqrt"))
+fire("C08", "polar angle from the y component", "S2.cart-to-sph-inverts/utils.convert_cart_to_sph",
+     ("sub", "utils.py", "        phi = np.arccos(relat_pts[:, 2] / r)\n", "        phi = np.arccos(relat_pts[:, 1] / r)\n"))
+fire("C08", "azimuth with the arguments of arctan2 exchanged", "S2.cart-to-sph-inverts/utils.convert_cart_to_sph",
+     ("sub", "utils.py", "    theta = np.arctan2(relat_pts[:, 1], relat_pts[:, 0])\n", "    theta = np.arctan2(relat_pts[:, 0], relat_pts[:, 1])\n"))
+fire("C08", "the centre is not subtracted", "S2.cart-to-sph-inverts/utils.convert_cart_to_sph",
+     ("sub", "utils.py", "    relat_pts = points - center\n", "    relat_pts = points - 0.0 * center\n"))
+fire("C08", "azimuthal derivative with the wrong sign", "S3.azimuthal-derivative/utils.generate_derivative_real_spherical_harmonics",
+     ("sub", "utils.py", "            output[0, i_output, :] = -float(m) * sph_harm_degree[index_m(-m), :]\n", "            output[0, i_output, :] = float(m) * sph_harm_degree[index_m(-m), :]\n"))
+fire("C08", "azimuthal derivative pairs m with itself", "S3.azimuthal-derivative/utils.generate_derivative_real_spherical_harmonics",
+     ("sub", "utils.py", "            output[0, i_output, :] = -float(m) * sph_harm_degree[index_m(-m), :]\n", "            output[0, i_output, :] = -float(m) * sph_harm_degree[index_m(m), :]\n"))
+fire("C08", "row position of positive orders off by one", "S3.azimuthal-derivative/utils.generate_derivative_real_spherical_harmonics",
+     ("sub", "utils.py", "                return 2 * m - 1 if m > 0 else int(2 * np.fabs(m))\n", "                return 2 * m if m > 0 else int(2 * np.fabs(m)) - 1\n"))
+silent("C08", "solid harmonics: constant pulled out of the root",
+       ("sub", "utils.py", "np.sqrt(4.0 * np.pi / (2 * degrees[:, None] + 1))", "2.0 * np.sqrt(np.pi / (2 * degrees[:, None] + 1))"))
+silent("C08", "conversion with unpacked components",
+       ("sub", "utils.py", "    theta = np.arctan2(relat_pts[:, 1], relat_pts[:, 0])\n", "    x_rel, y_rel, _ = relat_pts.T\n    theta = np.arctan2(y_rel, x_rel)\n"))
